@@ -66,9 +66,11 @@ def _sig(f: dict) -> dict:
 
 def replay(rec: dict) -> bool:
     rp = rec["replay"]
-    cfg = rp["cfg"]
-    cfg = copy.deepcopy(cfg)
-    env = scen.make_env(cfg)
+    if "scenario_dir" in rp:
+        from primaite.session.environment import PrimaiteGymEnv
+        env = PrimaiteGymEnv(env_config=rp["scenario_dir"])
+    else:
+        env = scen.make_env(copy.deepcopy(rp["cfg"]))
     try:
         for a in rp["log"]:
             if a == "reset":
@@ -110,6 +112,21 @@ def run(ctx: Ctx):
         all_lines += lines
         all_impl += impl
         ctx.sample({"scenario": name, "variant": variant, "log": log[:20], "impl": impl[2:6]}, cap=4)
+    for name, path in envrig.scheduled_dirs().items():
+        if not ctx.thorough and name.startswith("uc7"):
+            continue  # 20 schedule entries x 34 agents: thorough tier only
+        lines, impl, fails, log = envrig.run_scheduled(path, rng.fork("sched" + name), extra_resets=3, steps=ctx.scale(6, 14))
+        ctx.count("case:scheduled")
+        ctx.cov["traces_validated_against_impl"] += 1
+        for i, a in enumerate(log):
+            ctx.count("op:reset" if a == "reset" else "scheduled-step")
+            ctx.case({"sc": name, "i": i, "a": a}, a != "reset")
+        for f in fails:
+            ctx.violation(_sig(f), f"scheduled scenario {name}: {f['kind']} {f.get('exc', '')} {f.get('msg', '')[:160]} "
+                          f"(reset #{f.get('reset_number')}, schedule length {f.get('schedule_length')})",
+                          {"scenario_dir": str(path), "log": f.get("log", log), "failure": {k: v for k, v in f.items() if k != "log"}})
+        all_lines += lines
+        all_impl += impl
     model = run_driver(EXE, all_lines) if all_lines else []
     bad = [(i, q, a, b) for i, (q, a, b) in enumerate(zip(all_lines, all_impl, model)) if a != b]
     for i, q, a, b in bad[:5]:
